@@ -46,7 +46,8 @@ def nontrivial_lang(A):
 
 def run_binary(case):
     s1, s2, op = case["d1"], case["d2"], case["op"]
-    D1, D2 = B.mk_dfa(s1), B.mk_dfa(s2)
+    D1 = B.mk_dfa(s1)
+    D2 = D1 if case.get("same_object") else B.mk_dfa(s2)       # the same object may be passed as both operands
     b1, b2 = B.canon(s1), B.canon(s2)
     fn = {"union": DA.dfa_union, "intersection": DA.dfa_intersection, "symmetric_difference": DA.dfa_symmetric_difference}[op]
     pyop = {"union": lambda x, y: x or y, "intersection": lambda x, y: x and y, "symmetric_difference": lambda x, y: x != y}[op]
@@ -72,6 +73,8 @@ def run_binary(case):
     if B.snap_dfa(D1) != b1 or B.snap_dfa(D2) != b2:
         raise Fail("mutates_argument", "an argument DFA was changed")
     nt = nontrivial_lang(A1) and nontrivial_lang(A2) and fa.equiv(want, A1) is not None and fa.equiv(want, A2) is not None
+    if case.get("same_object"):
+        return {"nt": nontrivial_lang(A1), "cls": [op, "same_object_twice"], "out": {"result_states": len(snap["Q"])}}
     return {"nt": nt, "cls": [op, "overlapping_names" if set(s1["Q"]) & set(s2["Q"]) else "disjoint_names"], "out": {"result_states": len(snap["Q"])}}
 
 
@@ -165,7 +168,8 @@ def binary_cases(draw, tier):
     else:
         d1 = draw(G.dfa_specs(min_states=lo, max_states=4, sigma=S, pool=G.POOL[:10]))
         d2 = draw(G.dfa_specs(min_states=lo, max_states=4, sigma=S, pool=G.POOL[:10] if overlap else G.POOL[10:22]))
-    return {"d1": d1, "d2": d2, "op": draw(st.sampled_from(["union", "intersection", "symmetric_difference"])), "logging": draw(st.integers(0, 5)) == 0}
+    same = draw(st.integers(0, 11)) == 0
+    return {"d1": d1, "d2": d1 if same else d2, "same_object": same, "op": draw(st.sampled_from(["union", "intersection", "symmetric_difference"])), "logging": draw(st.integers(0, 5)) == 0}
 
 
 @st.composite
